@@ -244,7 +244,11 @@ def run_case(c):
         twin = None
         nb = 0
         for b in range(int(rng.integers(2, 7))):
-            lo_l, hi_l, bk = scenario.gen_box(rng, N)
+            if ev is not None and rng.random() < 0.3:
+                lo_l, hi_l, bk = scenario.nearby_box(rng, lo_l, hi_l)      # a slight correction of the box in force
+                obs["rebound_to_a_nearby_box"] = obs.get("rebound_to_a_nearby_box", 0) + 1
+            else:
+                lo_l, hi_l, bk = scenario.gen_box(rng, N)
             if ev is None:
                 if c["i"] % 2:
                     # two objects built from the caller's own float64 bound arrays: moving the first with SetBounds must leave the second on its box
